@@ -38,6 +38,12 @@ def main():
                 s = s.replace('target_feature = "simd128"', 'all()')
                 s = re.sub(r'^\s*#\[target_feature\(enable = "simd128"\)\]\n', '', s, flags=re.M)
                 s = s.replace('core::arch::wasm32', 'crate::emu_wasm32')
+                if f == "vector.rs" and os.path.basename(root) == "src":
+                    # `load_aligned` of the v128 impl is a plain dereference: make it observable
+                    pat = re.compile(r'(unsafe fn load_aligned\(data: \*const u8\) -> v128 \{\s*)\*data\.cast\(\)(\s*\})')
+                    s, k = pat.subn(r'\1crate::emu_wasm32::v128_deref_aligned(data.cast())\2', s)
+                    if k != 1:
+                        sys.exit("mkemu: simd128 `load_aligned` is no longer `*data.cast()`; the emulation cannot record it")
             if s != o:
                 n_rewrites += 1
                 open(p, "w").write(s)
